@@ -15,7 +15,7 @@ Extraction "model.ml" Utf8.run Input.runa Input.ig0 Utf8.acc0 Utf8Spec.validb Ut
   Cli.cli_init Cli.raw_cmdset Cli.api_build Cli.api_process_byte Cli.api_write Cli.api_set_prompt
   Handler.handler_raw Handler.prompt_of Handler.PROMPTS Writer.title_hops Writer.list_element_hops Cli.set_sk
   QuoteSpec.tokens_fun QuoteSpec.render_quoted Framing.frame_write Framing.frame_enter Framing.hops_bytes
-  Terminal.vterm0 Terminal.feed Terminal.term_lex Terminal.view_ok Terminal.visible
+  Terminal.tinit Terminal.tfeed Terminal.view_ok Terminal.visible
   IdealEditor.ideal_step IdealEditor.ideal0 IdealEditor.ibytes
   HistSpec.hs_push HistSpec.hs_older HistSpec.hs_newer HistSpec.hspec0
   ArgSpec.classify_all ArgSpec.chars_of CompletionSpec.complete_spec
